@@ -39,6 +39,7 @@ def healthy(ctx, n, nsteps):
         names = l4.Names()
         scen.collect_names(names, c["steps"], r)
         h = l4.History(c["id"], names)
+        h.expect_healthy = True     # kills only from operation 9 on: after the band head is written
         scen.add_model_history(h, c["steps"], c["marks"], r, names)
         hs.append(h)
     out = l4.evaluate(ctx, "C09h", hs, shards=8)
@@ -93,6 +94,10 @@ def run(ctx):
             ctx.dist("bitflip_still_decodable_" + cls)      # no checksum on index/metadata files: outside the property
             continue
         v, vq = probe[idx["validate"]], probe[idx["validate_quick"]]
+        if kind == "delete" and damage.is_last_hunk_of_open_band(b["arch"], f) and damage.errs(v) == 0:
+            ctx.oracle_fail("validate/last-hunk-of-open-band-unreported", f"after deleting {f}, the last index hunk of an interrupted version, "
+                            f"b{harmed:04d} no longer restores exactly but validation reports nothing", small)
+            continue
         if damage.errs(v) == 0:
             sig = {"hunk": "validate/hunk-unreported", "head": "validate/head-unreported", "block": "validate/block-unreported",
                    "tail": "validate/tail-unreported", "header": "validate/header-unreported"}.get(cls, "validate/unreported")
@@ -104,9 +109,19 @@ def run(ctx):
             continue
         ctx.nontrivial(cls + ":" + kind)
         ctx.dist("detected_" + cls + "_" + kind)
+    damage.model_probe(ctx, "C09d", cases, info, res, every=1 if quick else 4)
+    # the directed history of the known finding
+    k = damage.open_band_last_hunk_case(ctx)
+    ctx.count()
+    if k is not None:
+        steps, dmg, before, after, v, vq = k
+        if before.get("result") == "ok" and scen.first_difference(scen.strip(before.get("tree")), scen.strip(after.get("tree"))) \
+                and damage.errs(v) == 0:
+            ctx.oracle_fail("validate/last-hunk-of-open-band-unreported", "an interrupted version (no BANDTAIL) that loses its LAST index hunk restores "
+                            "older contents for the files of that hunk while full and quick validation report nothing", {"base_steps": steps, "damage": dmg})
     if cases:
         ctx.sample({"damaged_file": info[cases[0]["id"]][1], "kind": info[cases[0]["id"]][3]})
-    ctx.assumptions += ["removal of a BANDTAIL is excluded: absence of the tail is the format's legal 'incomplete' state",
+    ctx.assumptions += ["removal of a BANDTAIL is excluded: absence of the tail is the format's legal 'incomplete' state; so is its truncation to zero length (what a kill leaves; only a non-empty tail closes a band)",
                         "truncated / garbage payloads are modelled as undecodable; the rare decodable ones are classified by what restore does"]
 
 
